@@ -61,9 +61,11 @@ VARIABLES
   orph,      \* requests still readable by a connection the server side of which is being torn down
   pool,      \* [created, free]                    workerPool
   mem,       \* units held in reqMemSem
-  srvSt      \* "up" | "shutdown" | "closing" | "closed"
+  srvSt,     \* "up" | "shutdown" | "closing" | "closed"
+  pend       \* commands of the environment that were issued (the API call / fault injection has
+             \* started, which is what a recorder can log) but have not taken effect yet
 
-vars == <<call, writeQ, inFlight, cli, c2s, s2c, link, proxy, sconn, srv, orph, pool, mem, srvSt>>
+vars == <<call, writeQ, inFlight, cli, c2s, s2c, link, proxy, sconn, srv, orph, pool, mem, srvSt, pend>>
 
 ---------------------------------------------------------------------------
 Pkt(k, q, o) == [k |-> k, q |-> q, o |-> o]
@@ -106,6 +108,7 @@ Init ==
   /\ pool = [created |-> 0, free |-> 0]
   /\ mem = 0
   /\ srvSt = "up"
+  /\ pend = {}
 
 ---------------------------------------------------------------------------
 (* ============================ client ================================== *)
@@ -114,33 +117,36 @@ Init ==
 Invoke(id, t, f) ==
   /\ call[id].pc = "new"
   /\ call' = [call EXCEPT ![id].pc = "inv", ![id].tmo = t, ![id].ff = f]
-  /\ UNCHANGED <<writeQ, inFlight, cli, c2s, s2c, link, proxy, sconn, srv, orph, pool, mem, srvSt>>
+  /\ UNCHANGED <<writeQ, inFlight, cli, c2s, s2c, link, proxy, sconn, srv, orph, pool, mem, srvSt, pend>>
 
 (* environment: the caller cancels the context (logged before cancel() is  *)
-(* called: if the call has a deadline, the deadline may still win)         *)
+(* called: if the call has a deadline, the deadline may still win; a call  *)
+(* that already returned is not affected)                                  *)
 CtxCancel(id) ==
-  /\ call[id].pc \in {"inv", "wait"}
-  /\ \/ call' = [call EXCEPT ![id].ctx = IF @ = "live" THEN "cancel" ELSE @]
-     \/ /\ call[id].tmo /\ call[id].ctx = "live"
-        /\ call' = [call EXCEPT ![id].ctx = "deadline", ![id].exp = TRUE]
-  /\ UNCHANGED <<writeQ, inFlight, cli, c2s, s2c, link, proxy, sconn, srv, orph, pool, mem, srvSt>>
+  /\ \/ /\ call[id].pc \in {"inv", "wait"} /\ call[id].ctx = "live"
+        /\ \/ call' = [call EXCEPT ![id].ctx = "cancel"]
+           \/ call[id].tmo /\ call' = [call EXCEPT ![id].ctx = "deadline", ![id].exp = TRUE]
+     \/ /\ ~(call[id].pc \in {"inv", "wait"} /\ call[id].ctx = "live")
+        /\ UNCHANGED call
+  /\ UNCHANGED <<writeQ, inFlight, cli, c2s, s2c, link, proxy, sconn, srv, orph, pool, mem, srvSt, pend>>
 
-(* time passes: the deadline of a call with a timeout is reached ...       *)
-DeadlinePass(id) ==
-  /\ call[id].tmo /\ ~call[id].exp /\ call[id].pc \in {"inv", "wait"}
-  /\ call' = [call EXCEPT ![id].exp = TRUE]
-  /\ UNCHANGED <<writeQ, inFlight, cli, c2s, s2c, link, proxy, sconn, srv, orph, pool, mem, srvSt>>
-(* ... and the context's timer fires                                       *)
+(* Time.  A call with a timeout has a deadline; `exp` records that some    *)
+(* step has already observed the deadline as passed (time is monotone).    *)
+(* It is set lazily by the steps that look at the clock: MayBeExpired(id)  *)
+(* is the set of answers such a step may get.                              *)
+MayBeExpired(id) == IF call[id].exp THEN {TRUE} ELSE IF call[id].tmo THEN {TRUE, FALSE} ELSE {FALSE}
+
+(* the context's timer fires (deadline reached)                            *)
 CtxDeadline(id) ==
-  /\ call[id].exp /\ call[id].ctx = "live" /\ call[id].pc \in {"inv", "wait"}
-  /\ call' = [call EXCEPT ![id].ctx = "deadline"]
-  /\ UNCHANGED <<writeQ, inFlight, cli, c2s, s2c, link, proxy, sconn, srv, orph, pool, mem, srvSt>>
+  /\ call[id].tmo /\ call[id].ctx = "live" /\ call[id].pc \in {"inv", "wait"}
+  /\ call' = [call EXCEPT ![id].ctx = "deadline", ![id].exp = TRUE]
+  /\ UNCHANGED <<writeQ, inFlight, cli, c2s, s2c, link, proxy, sconn, srv, orph, pool, mem, srvSt, pend>>
 
 (* client.go fillRequestTimeout: `to <= 0` -> DeadlineExceeded, nothing set up *)
 SetupExpired(id) ==
-  /\ call[id].pc = "inv" /\ call[id].exp
-  /\ call' = [call EXCEPT ![id].pc = "ret", ![id].rv = Res("deadline", NoId)]
-  /\ UNCHANGED <<writeQ, inFlight, cli, c2s, s2c, link, proxy, sconn, srv, orph, pool, mem, srvSt>>
+  /\ call[id].pc = "inv" /\ call[id].tmo
+  /\ call' = [call EXCEPT ![id].pc = "ret", ![id].rv = Res("deadline", NoId), ![id].exp = TRUE]
+  /\ UNCHANGED <<writeQ, inFlight, cli, c2s, s2c, link, proxy, sconn, srv, orph, pool, mem, srvSt, pend>>
 
 (* client.go setupCall + client_conn.go setupCallLocked                    *)
 SetupCall(id) ==
@@ -155,7 +161,7 @@ SetupCall(id) ==
      ELSE /\ call' = [call EXCEPT ![id].pc = "wait", ![id].st = "unsent"]
           /\ writeQ' = [writeQ EXCEPT ![c] = Append(@, ReqP(id))]
           /\ cli' = [cli EXCEPT ![c].conn = IF @ = "idle" THEN "connecting" ELSE @]
-  /\ UNCHANGED <<inFlight, c2s, s2c, link, proxy, sconn, srv, orph, pool, mem, srvSt>>
+  /\ UNCHANGED <<inFlight, c2s, s2c, link, proxy, sconn, srv, orph, pool, mem, srvSt, pend>>
 
 (* sendLoop + moveRequestsToSendLocked: the whole queue is taken under the *)
 (* lock; entries whose call vanished are dropped; requests become "sent"   *)
@@ -175,34 +181,36 @@ SendFromWriteQ(c) ==
   /\ writeQ' = [writeQ EXCEPT ![c] = IF cli[c].shut THEN @ ELSE <<>>]
   /\ cli' = [cli EXCEPT ![c].fin = FALSE]
   /\ c2s' = [c2s EXCEPT ![c] = IF link[c] = "ok" THEN @ \o out ELSE @]   \* broken transport: bytes are lost
-  /\ UNCHANGED <<s2c, link, proxy, sconn, srv, orph, pool, mem, srvSt>>
+  /\ UNCHANGED <<s2c, link, proxy, sconn, srv, orph, pool, mem, srvSt, pend>>
 
-(* doWait took the ctx.Done() branch: cancelCall + cancelCallImpl          *)
+(* doWait took the ctx.Done() branch: cancelCall + cancelCallImpl.  The     *)
+(* cancel packet is not sent when the deadline is observed as passed.      *)
 CancelCall(id) ==
   LET c == OwnerOf(id)
       wasSent == call[id].st = "sent"
       infl == IF wasSent THEN inFlight[c] - 1 ELSE inFlight[c]
       closeNow == wasSent /\ cli[c].conn = "up" /\ cli[c].shut /\ infl = 0
-      sendCancel == wasSent /\ cli[c].conn = "up" /\ ~closeNow /\ ~call[id].exp
   IN
   /\ call[id].pc = "wait" /\ call[id].ctx # "live"
-  /\ call' = [call EXCEPT ![id].pc = "ret", ![id].st = "none", ![id].slot = Empty,
-                          ![id].rv = Res(call[id].ctx, NoId)]
+  /\ \E passed \in MayBeExpired(id) :
+       LET sendCancel == wasSent /\ cli[c].conn = "up" /\ ~closeNow /\ ~passed IN
+       /\ call' = [call EXCEPT ![id].pc = "ret", ![id].st = "none", ![id].slot = Empty,
+                               ![id].rv = Res(call[id].ctx, NoId), ![id].exp = passed]
+       /\ writeQ' = [writeQ EXCEPT ![c] = IF sendCancel THEN Append(@, CancelP(id)) ELSE @]
   /\ inFlight' = [inFlight EXCEPT ![c] = infl]
   /\ cli' = [cli EXCEPT ![c].conn = IF closeNow THEN "dropped" ELSE @]
   /\ link' = [link EXCEPT ![c] = IF closeNow THEN "broken" ELSE @]
-  /\ writeQ' = [writeQ EXCEPT ![c] = IF sendCancel THEN Append(@, CancelP(id)) ELSE @]
-  /\ UNCHANGED <<c2s, s2c, proxy, sconn, srv, orph, pool, mem, srvSt>>
+  /\ UNCHANGED <<c2s, s2c, proxy, sconn, srv, orph, pool, mem, srvSt, pend>>
 
 (* API boundary: Do() returns (logged by the driver after the call)        *)
 ReturnResult(id) ==      \* doWait took the result branch
   /\ call[id].pc = "wait" /\ call[id].slot # Empty
   /\ call' = [call EXCEPT ![id].pc = "done", ![id].rv = call[id].slot, ![id].slot = Empty]
-  /\ UNCHANGED <<writeQ, inFlight, cli, c2s, s2c, link, proxy, sconn, srv, orph, pool, mem, srvSt>>
+  /\ UNCHANGED <<writeQ, inFlight, cli, c2s, s2c, link, proxy, sconn, srv, orph, pool, mem, srvSt, pend>>
 ReturnPending(id) ==     \* early rejection, or ctx error after cancelCall
   /\ call[id].pc = "ret"
   /\ call' = [call EXCEPT ![id].pc = "done"]
-  /\ UNCHANGED <<writeQ, inFlight, cli, c2s, s2c, link, proxy, sconn, srv, orph, pool, mem, srvSt>>
+  /\ UNCHANGED <<writeQ, inFlight, cli, c2s, s2c, link, proxy, sconn, srv, orph, pool, mem, srvSt, pend>>
 Return(id) == ReturnResult(id) \/ ReturnPending(id)
 
 (* receiveLoop -> handlePacket: finishCall / shutdown                      *)
@@ -228,34 +236,40 @@ ClientRecv(c) ==
   /\ LET p == Head(s2c[c]) IN
        IF p.k = "resp" THEN FinishCall(c, p) ELSE ClientShutdown(c)
   /\ s2c' = [s2c EXCEPT ![c] = Tail(@)]
-  /\ UNCHANGED <<writeQ, c2s, proxy, sconn, srv, orph, pool, mem, srvSt>>
+  /\ UNCHANGED <<writeQ, c2s, proxy, sconn, srv, orph, pool, mem, srvSt, pend>>
 
 (* send or receive loop failed, or client Close: dropClientConn            *)
 ConnDrop(c) ==
   /\ cli[c].conn = "up" /\ (link[c] = "broken" \/ cli[c].closed)
   /\ cli' = [cli EXCEPT ![c].conn = "dropped"]
   /\ link' = [link EXCEPT ![c] = "broken"]
-  /\ UNCHANGED <<call, writeQ, inFlight, c2s, s2c, proxy, sconn, srv, orph, pool, mem, srvSt>>
+  /\ UNCHANGED <<call, writeQ, inFlight, c2s, s2c, proxy, sconn, srv, orph, pool, mem, srvSt, pend>>
 
-(* massCancelRequestsLocked, as a function of the state                    *)
-McOutcome(id, c) ==
+(* massCancelRequestsLocked.  `late` = the unsent calls whose deadline it   *)
+(* observes as passed (now.After(cctx.deadline)).                          *)
+McOutcome(id, c, late) ==
   IF call[id].st = "sent" THEN "closedSE"
   ELSE IF call[id].ff \/ cli[c].closed THEN "closedNoSE"
-  ELSE IF call[id].exp THEN "deadline"
+  ELSE IF id \in late THEN "deadline"
   ELSE "requeue"                                        \* RequeueUnsent
-McCall(id, c) ==
+McCall(id, c, late) ==
   IF id \notin InCalls(c) THEN call[id]
-  ELSE IF McOutcome(id, c) = "requeue" THEN call[id]
-  ELSE [call[id] EXCEPT !.st = "none", !.slot = Res(McOutcome(id, c), NoId), !.nd = @ + 1]
-McRequeued(c) == {id \in InCalls(c) : McOutcome(id, c) = "requeue"}
+  ELSE IF McOutcome(id, c, late) = "requeue" THEN call[id]
+  ELSE [call[id] EXCEPT !.st = "none", !.slot = Res(McOutcome(id, c, late), NoId), !.nd = @ + 1,
+                        !.exp = IF id \in late THEN TRUE ELSE @]
+McRequeued(c, late) == {id \in InCalls(c) : McOutcome(id, c, late) = "requeue"}
 (* the order of the re-queued requests is the iteration order of a Go map: any *)
 Perms(S) == {f \in [1..Cardinality(S) -> S] : \A i, j \in 1..Cardinality(S) : i # j => f[i] # f[j]}
+McLateChoices(c) ==
+  LET must == {id \in InCalls(c) : call[id].st = "unsent" /\ call[id].exp}
+      may  == {id \in InCalls(c) : call[id].st = "unsent" /\ call[id].tmo /\ ~call[id].exp}
+  IN {must \cup x : x \in SUBSET may}
 McEffect(c, goodHandshake) ==
-  \E order \in Perms(McRequeued(c)) :
-    /\ call' = [id \in CallIds |-> McCall(id, c)]
+  \E late \in McLateChoices(c) : \E order \in Perms(McRequeued(c, late)) :
+    /\ call' = [id \in CallIds |-> McCall(id, c, late)]
     /\ inFlight' = [inFlight EXCEPT ![c] = @ - Cardinality(SentCalls(c))]
-    /\ writeQ' = [writeQ EXCEPT ![c] = [i \in 1..Cardinality(McRequeued(c)) |-> ReqP(order[i])]]
-    /\ LET cont == ~cli[c].closed /\ McRequeued(c) # {} IN
+    /\ writeQ' = [writeQ EXCEPT ![c] = [i \in 1..Cardinality(McRequeued(c, late)) |-> ReqP(order[i])]]
+    /\ LET cont == ~cli[c].closed /\ McRequeued(c, late) # {} IN
        cli' = [cli EXCEPT ![c].shut = FALSE, ![c].fin = FALSE, ![c].hscut = FALSE,
                           ![c].conn = IF cont THEN "connecting" ELSE "idle",
                           ![c].w2r = IF ~cont THEN FALSE ELSE IF goodHandshake THEN @ ELSE TRUE]
@@ -266,7 +280,7 @@ McEffect(c, goodHandshake) ==
 MassCancel(c) ==
   /\ cli[c].conn = "dropped" \/ (cli[c].conn = "connecting" /\ cli[c].closed)
   /\ McEffect(c, cli[c].conn = "dropped")
-  /\ UNCHANGED <<c2s, link, proxy, sconn, srv, orph, pool, mem, srvSt>>
+  /\ UNCHANGED <<c2s, link, proxy, sconn, srv, orph, pool, mem, srvSt, pend>>
 
 (* dial or handshake failed (listener closed, proxy refuses, cut during    *)
 (* the handshake): continueRunning(false)                                  *)
@@ -274,7 +288,7 @@ ConnectFail(c) ==
   /\ cli[c].conn = "connecting" /\ ~cli[c].closed
   /\ srvSt # "up" \/ proxy[c] = "refuse" \/ cli[c].hscut
   /\ McEffect(c, FALSE)
-  /\ UNCHANGED <<c2s, link, proxy, sconn, srv, orph, pool, mem, srvSt>>
+  /\ UNCHANGED <<c2s, link, proxy, sconn, srv, orph, pool, mem, srvSt, pend>>
 
 (* dial + handshake succeeded on both sides: setClientConn / trackConn     *)
 Connect(c) ==
@@ -286,11 +300,19 @@ Connect(c) ==
   /\ sconn' = [sconn EXCEPT ![c] = [st |-> "open", rl |-> NoId, wq |-> <<>>]]
   /\ c2s' = [c2s EXCEPT ![c] = <<>>]
   /\ s2c' = [s2c EXCEPT ![c] = <<>>]
-  /\ UNCHANGED <<call, writeQ, inFlight, proxy, srv, orph, pool, mem, srvSt>>
+  /\ UNCHANGED <<call, writeQ, inFlight, proxy, srv, orph, pool, mem, srvSt, pend>>
 
-(* API boundary: Client.Close()                                            *)
+(* API boundary: Client.Close() is called (CliCloseBegin, logged before the *)
+(* call), takes effect (CliCloseDo: c.closed / closeCC under the locks) and *)
+(* has returned (CliCloseEnd).                                              *)
+Cmd(k, who, arg) == [k |-> k, who |-> who, arg |-> arg]
 CliCloseBegin(c) ==
-  /\ ~cli[c].closed
+  /\ ~cli[c].closed /\ Cmd("close", c, "") \notin pend
+  /\ pend' = pend \cup {Cmd("close", c, "")}
+  /\ UNCHANGED <<call, writeQ, inFlight, cli, c2s, s2c, link, proxy, sconn, srv, orph, pool, mem, srvSt>>
+CliCloseDo(c) ==
+  /\ Cmd("close", c, "") \in pend
+  /\ pend' = pend \ {Cmd("close", c, "")}
   /\ cli' = [cli EXCEPT ![c].closed = TRUE]
   /\ UNCHANGED <<call, writeQ, inFlight, c2s, s2c, link, proxy, sconn, srv, orph, pool, mem, srvSt>>
 CliCloseEnd(c) ==
@@ -324,7 +346,7 @@ RecvHdr(c) ==
           /\ sconn' = [sconn EXCEPT ![c].st = IF @ = "open" THEN "shutdown" ELSE @]
           /\ UNCHANGED srv
   /\ c2s' = [c2s EXCEPT ![c] = Tail(@)]
-  /\ UNCHANGED <<call, writeQ, inFlight, cli, s2c, link, proxy, orph, pool, mem, srvSt>>
+  /\ UNCHANGED <<call, writeQ, inFlight, cli, s2c, link, proxy, orph, pool, mem, srvSt, pend>>
 
 (* acquireRequestSema succeeded (TryAcquire, or Acquire after waiting)     *)
 AcquireMem(id) ==
@@ -332,12 +354,12 @@ AcquireMem(id) ==
   /\ mem + Take(id) <= MemLimit
   /\ mem' = mem + Take(id)
   /\ srv' = [srv EXCEPT ![id].st = "needworker"]
-  /\ UNCHANGED <<call, writeQ, inFlight, cli, c2s, s2c, link, proxy, sconn, orph, pool, srvSt>>
+  /\ UNCHANGED <<call, writeQ, inFlight, cli, c2s, s2c, link, proxy, sconn, orph, pool, srvSt, pend>>
 (* ... or failed because the connection's context was cancelled            *)
 RecvAbort(id) ==
   /\ srv[id].st = "needmem" /\ ~srv[id].live
   /\ srv' = [srv EXCEPT ![id].st = "gone"]
-  /\ UNCHANGED <<call, writeQ, inFlight, cli, c2s, s2c, link, proxy, sconn, orph, pool, mem, srvSt>>
+  /\ UNCHANGED <<call, writeQ, inFlight, cli, c2s, s2c, link, proxy, sconn, orph, pool, mem, srvSt, pend>>
 
 (* workerPool.Get (blocks while created = MaxWorkers and none is free; has *)
 (* no context, so it is not interrupted by a close) + hand-over of work    *)
@@ -348,21 +370,21 @@ GetWorker(id) ==
   /\ pool' = IF pool.free > 0 THEN [pool EXCEPT !.free = @ - 1] ELSE [pool EXCEPT !.created = @ + 1]
   /\ srv' = [srv EXCEPT ![id].st = "queued"]
   /\ sconn' = [sconn EXCEPT ![c].rl = IF @ = id THEN NoId ELSE @]
-  /\ UNCHANGED <<call, writeQ, inFlight, cli, c2s, s2c, link, proxy, orph, mem, srvSt>>
+  /\ UNCHANGED <<call, writeQ, inFlight, cli, c2s, s2c, link, proxy, orph, mem, srvSt, pend>>
 
 (* API boundary: the handler is entered.  HandleInline: with MaxWorkers=0  *)
 (* it runs on the receive goroutine, which stays blocked (rl keeps id).    *)
 HandlerEnter(id) ==
   /\ srv[id].st = "queued" \/ (srv[id].st = "needworker" /\ MaxWorkers = 0)
   /\ srv' = [srv EXCEPT ![id].st = "run"]
-  /\ UNCHANGED <<call, writeQ, inFlight, cli, c2s, s2c, link, proxy, sconn, orph, pool, mem, srvSt>>
+  /\ UNCHANGED <<call, writeQ, inFlight, cli, c2s, s2c, link, proxy, sconn, orph, pool, mem, srvSt, pend>>
 (* callHandlerNoRecover: the deadline derived from custom_timeout_ms has   *)
 (* passed before the handler could start                                   *)
 HandlerSkipExpired(id) ==
   /\ srv[id].st = "queued" \/ (srv[id].st = "needworker" /\ MaxWorkers = 0)
   /\ call[id].tmo
   /\ srv' = [srv EXCEPT ![id].st = "exited", ![id].out = "tmo"]
-  /\ UNCHANGED <<call, writeQ, inFlight, cli, c2s, s2c, link, proxy, sconn, orph, pool, mem, srvSt>>
+  /\ UNCHANGED <<call, writeQ, inFlight, cli, c2s, s2c, link, proxy, sconn, orph, pool, mem, srvSt, pend>>
 (* API boundary: the handler returns.  "tmo": its context's deadline       *)
 (* (custom_timeout_ms) fired; "cancelled": the connection was closed.      *)
 HandlerExit(id, o) ==
@@ -371,7 +393,7 @@ HandlerExit(id, o) ==
   /\ o = "tmo" => call[id].tmo
   /\ o = "cancelled" => ~srv[id].live
   /\ srv' = [srv EXCEPT ![id].st = "exited", ![id].out = o]
-  /\ UNCHANGED <<call, writeQ, inFlight, cli, c2s, s2c, link, proxy, sconn, orph, pool, mem, srvSt>>
+  /\ UNCHANGED <<call, writeQ, inFlight, cli, c2s, s2c, link, proxy, sconn, orph, pool, mem, srvSt, pend>>
 
 (* serverConnTCP.SendResponse: request memory is released (after the       *)
 (* handler), the response is queued unless the connection is stopped;      *)
@@ -385,7 +407,7 @@ SendResponse(id) ==
   /\ srv' = [srv EXCEPT ![id].st = IF push THEN "resp" ELSE "gone"]
   /\ sconn' = [sconn EXCEPT ![c].wq = IF push THEN Append(@, id) ELSE @,
                             ![c].rl = IF @ = id THEN NoId ELSE @]
-  /\ UNCHANGED <<call, writeQ, inFlight, cli, c2s, s2c, link, proxy, orph, srvSt>>
+  /\ UNCHANGED <<call, writeQ, inFlight, cli, c2s, s2c, link, proxy, orph, srvSt, pend>>
 
 (* sendLoopImpl                                                            *)
 ServerSend(c) ==
@@ -394,12 +416,12 @@ ServerSend(c) ==
        /\ s2c' = [s2c EXCEPT ![c] = IF link[c] = "ok" THEN Append(@, RespP(id, srv[id].out)) ELSE @]
        /\ srv' = [srv EXCEPT ![id].st = "gone"]
   /\ sconn' = [sconn EXCEPT ![c].wq = Tail(@)]
-  /\ UNCHANGED <<call, writeQ, inFlight, cli, c2s, link, proxy, orph, pool, mem, srvSt>>
+  /\ UNCHANGED <<call, writeQ, inFlight, cli, c2s, link, proxy, orph, pool, mem, srvSt, pend>>
 ServerSendLetsFin(c) ==
   /\ sconn[c].st = "shutdown"
   /\ sconn' = [sconn EXCEPT ![c].st = "finsent"]
   /\ s2c' = [s2c EXCEPT ![c] = IF link[c] = "ok" THEN Append(@, LetsFinP) ELSE @]
-  /\ UNCHANGED <<call, writeQ, inFlight, cli, c2s, link, proxy, srv, orph, pool, mem, srvSt>>
+  /\ UNCHANGED <<call, writeQ, inFlight, cli, c2s, link, proxy, srv, orph, pool, mem, srvSt, pend>>
 
 (* serverConnTCP.close: read/write error (EOF) or Server.Close.  Queued    *)
 (* responses are released, handler contexts are cancelled (live = FALSE).  *)
@@ -415,25 +437,36 @@ SrvConnStop(c) ==
   /\ orph' = IF AllowOrphans THEN orph \cup {p.q : p \in {x \in Range(c2s[c]) : x.k = "req"}} ELSE orph
   /\ c2s' = [c2s EXCEPT ![c] = <<>>]
   /\ link' = [link EXCEPT ![c] = "broken"]
-  /\ UNCHANGED <<call, writeQ, inFlight, cli, s2c, proxy, pool, mem, srvSt>>
+  /\ UNCHANGED <<call, writeQ, inFlight, cli, s2c, proxy, pool, mem, srvSt, pend>>
 OrphanRecv(id) ==
   /\ id \in orph
   /\ orph' = orph \ {id}
   /\ srv' = [srv EXCEPT ![id] = [st |-> "needmem", out |-> "none", live |-> FALSE]]
-  /\ UNCHANGED <<call, writeQ, inFlight, cli, c2s, s2c, link, proxy, sconn, pool, mem, srvSt>>
+  /\ UNCHANGED <<call, writeQ, inFlight, cli, c2s, s2c, link, proxy, sconn, pool, mem, srvSt, pend>>
 OrphanDrop(id) ==
   /\ id \in orph
   /\ orph' = orph \ {id}
-  /\ UNCHANGED <<call, writeQ, inFlight, cli, c2s, s2c, link, proxy, sconn, srv, pool, mem, srvSt>>
+  /\ UNCHANGED <<call, writeQ, inFlight, cli, c2s, s2c, link, proxy, sconn, srv, pool, mem, srvSt, pend>>
 
-(* API boundary: Server.Shutdown() (graceful) and Server.Close()           *)
+(* API boundary: Server.Shutdown() (graceful) and Server.Close(): called    *)
+(* (logged), effective, returned.                                           *)
 SrvShutdown ==
-  /\ srvSt = "up"
-  /\ srvSt' = "shutdown"
+  /\ srvSt = "up" /\ Cmd("shutdown", "server", "") \notin pend
+  /\ pend' = pend \cup {Cmd("shutdown", "server", "")}
+  /\ UNCHANGED <<call, writeQ, inFlight, cli, c2s, s2c, link, proxy, sconn, srv, orph, pool, mem, srvSt>>
+SrvShutdownDo ==
+  /\ Cmd("shutdown", "server", "") \in pend
+  /\ pend' = pend \ {Cmd("shutdown", "server", "")}
+  /\ srvSt' = IF srvSt = "up" THEN "shutdown" ELSE srvSt
   /\ sconn' = [c \in Clients |-> IF sconn[c].st = "open" THEN [sconn[c] EXCEPT !.st = "shutdown"] ELSE sconn[c]]
   /\ UNCHANGED <<call, writeQ, inFlight, cli, c2s, s2c, link, proxy, srv, orph, pool, mem>>
 SrvCloseBegin ==
-  /\ srvSt \in {"up", "shutdown"}
+  /\ srvSt \in {"up", "shutdown"} /\ Cmd("close", "server", "") \notin pend
+  /\ pend' = pend \cup {Cmd("close", "server", "")}
+  /\ UNCHANGED <<call, writeQ, inFlight, cli, c2s, s2c, link, proxy, sconn, srv, orph, pool, mem, srvSt>>
+SrvCloseDo ==
+  /\ Cmd("close", "server", "") \in pend
+  /\ pend' = pend \ {Cmd("close", "server", "")}
   /\ srvSt' = "closing"
   /\ sconn' = [c \in Clients |-> IF sconn[c].st = "open" THEN [sconn[c] EXCEPT !.st = "shutdown"] ELSE sconn[c]]
   /\ UNCHANGED <<call, writeQ, inFlight, cli, c2s, s2c, link, proxy, srv, orph, pool, mem>>
@@ -443,26 +476,46 @@ SrvCloseEnd ==
   /\ \A id \in CallIds : srv[id].st \in {"none", "gone"}
   /\ orph = {}
   /\ srvSt' = "closed"
-  /\ UNCHANGED <<call, writeQ, inFlight, cli, c2s, s2c, link, proxy, sconn, srv, orph, pool, mem>>
+  /\ UNCHANGED <<call, writeQ, inFlight, cli, c2s, s2c, link, proxy, sconn, srv, orph, pool, mem, pend>>
 
 (* ========================== environment =============================== *)
-(* fault: the transport of client c is cut (both directions)               *)
+(* fault: the transport of client c is cut (both directions); the proxy    *)
+(* between client c and the server starts refusing / passing connections.  *)
+(* Cut / SetProxy: the driver has started the operation (logged);          *)
+(* CutDo / ProxyDo: it takes effect.                                       *)
 Cut(c) ==
+  /\ pend' = pend \cup {Cmd("cut", c, "")}
+  /\ UNCHANGED <<call, writeQ, inFlight, cli, c2s, s2c, link, proxy, sconn, srv, orph, pool, mem, srvSt>>
+CutDo(c) ==
+  /\ Cmd("cut", c, "") \in pend
+  /\ pend' = pend \ {Cmd("cut", c, "")}
   /\ link' = [link EXCEPT ![c] = IF cli[c].conn \in {"up", "dropped"} \/ SOpen(c) THEN "broken" ELSE @]
   /\ cli' = [cli EXCEPT ![c].hscut = IF cli[c].conn = "connecting" THEN TRUE ELSE @]
   /\ UNCHANGED <<call, writeQ, inFlight, c2s, s2c, proxy, sconn, srv, orph, pool, mem, srvSt>>
 SetProxy(c, m) ==
-  /\ proxy' = [proxy EXCEPT ![c] = m]
-  /\ UNCHANGED <<call, writeQ, inFlight, cli, c2s, s2c, link, sconn, srv, orph, pool, mem, srvSt>>
+  /\ \A x \in pend : ~(x.k = "proxy" /\ x.who = c)      \* one mode switch at a time
+  /\ pend' = pend \cup {Cmd("proxy", c, m)}
+  /\ UNCHANGED <<call, writeQ, inFlight, cli, c2s, s2c, link, proxy, sconn, srv, orph, pool, mem, srvSt>>
+ProxyDo(c) ==
+  \E m \in {"pass", "refuse"} :
+    /\ Cmd("proxy", c, m) \in pend
+    /\ pend' = pend \ {Cmd("proxy", c, m)}
+    /\ proxy' = [proxy EXCEPT ![c] = m]
+    /\ UNCHANGED <<call, writeQ, inFlight, cli, c2s, s2c, link, sconn, srv, orph, pool, mem, srvSt>>
+
+(* commands the driver executes synchronously on its controller goroutine  *)
+SyncPending == \E x \in pend : x.k \in {"cut", "proxy", "shutdown"}
 
 ---------------------------------------------------------------------------
 (* internal (unobservable) steps of the implementation                     *)
 Internal ==
-  \/ \E id \in CallIds : DeadlinePass(id) \/ CtxDeadline(id) \/ SetupExpired(id) \/ SetupCall(id) \/ CancelCall(id)
+  \/ \E id \in CallIds : CtxDeadline(id) \/ SetupExpired(id) \/ SetupCall(id) \/ CancelCall(id)
                          \/ AcquireMem(id) \/ RecvAbort(id) \/ GetWorker(id) \/ HandlerSkipExpired(id)
                          \/ SendResponse(id) \/ OrphanRecv(id) \/ OrphanDrop(id)
   \/ \E c \in Clients : SendFromWriteQ(c) \/ ClientRecv(c) \/ ConnDrop(c) \/ MassCancel(c) \/ ConnectFail(c) \/ Connect(c)
                         \/ RecvHdr(c) \/ ServerSend(c) \/ ServerSendLetsFin(c) \/ SrvConnStop(c)
+                        \/ CliCloseDo(c) \/ CutDo(c) \/ ProxyDo(c)
+  \/ SrvShutdownDo \/ SrvCloseDo
 
 (* steps visible at the API boundary (driven by the caller / handler / operator) *)
 Visible ==
@@ -534,26 +587,28 @@ TypeOK ==
   /\ srvSt \in {"up", "shutdown", "closing", "closed"}
 
 (* ---- liveness (fair scheduler of the implementation's own steps) ----   *)
-Fairness ==
-  /\ \A id \in CallIds :
-        /\ WF_vars(SetupCall(id)) /\ WF_vars(CancelCall(id)) /\ WF_vars(Return(id))
-        /\ WF_vars(CtxDeadline(id))
-        /\ WF_vars(AcquireMem(id)) /\ WF_vars(RecvAbort(id)) /\ WF_vars(GetWorker(id)) /\ WF_vars(SendResponse(id))
-        /\ WF_vars(OrphanDrop(id))
-  /\ \A c \in Clients :
-        /\ WF_vars(SendFromWriteQ(c)) /\ WF_vars(ClientRecv(c)) /\ WF_vars(ConnDrop(c)) /\ WF_vars(MassCancel(c))
-        /\ WF_vars(ConnectFail(c)) /\ WF_vars(Connect(c))
-        /\ WF_vars(RecvHdr(c)) /\ WF_vars(ServerSend(c)) /\ WF_vars(ServerSendLetsFin(c)) /\ WF_vars(SrvConnStop(c))
+(* Every step of Progress moves some call, request or connection strictly   *)
+(* forward, so weak fairness of the disjunction is enough: it cannot be     *)
+(* satisfied for ever by steps other than the one a property is waiting for. *)
+(* (The reconnect loop ConnectFail / Connect is not part of it.)             *)
+Progress ==
+  \/ \E id \in CallIds : SetupCall(id) \/ CancelCall(id) \/ Return(id) \/ AcquireMem(id) \/ RecvAbort(id)
+                         \/ GetWorker(id) \/ SendResponse(id) \/ OrphanDrop(id)
+  \/ \E c \in Clients : SendFromWriteQ(c) \/ ClientRecv(c) \/ ConnDrop(c) \/ MassCancel(c) \/ RecvHdr(c)
+                        \/ ServerSend(c) \/ ServerSendLetsFin(c) \/ SrvConnStop(c)
+                        \/ CliCloseDo(c) \/ CutDo(c) \/ ProxyDo(c)
+  \/ SrvShutdownDo \/ SrvCloseDo
+Fairness == WF_vars(Progress)
 Spec == Init /\ [][Next]_vars /\ Fairness
 
 Pending(id) == call[id].pc \in {"inv", "wait", "ret"}
 (* after Close of the client every started call returns                    *)
 ClientCloseReturnsAll ==
-  \A id \in CallIds : (cli[OwnerOf(id)].closed /\ Pending(id)) ~> (call[id].pc = "done")
+  \A id \in CallIds : ((cli[OwnerOf(id)].closed \/ Cmd("close", OwnerOf(id), "") \in pend) /\ Pending(id)) ~> (call[id].pc = "done")
 (* after Close of the server every call that was sent returns; an unsent   *)
 (* one is re-queued for the next connection (RequeueUnsent)                *)
 ServerCloseReturnsSent ==
-  \A id \in CallIds : (srvSt \in {"closing", "closed"} /\ call[id].st = "sent") ~> (call[id].pc = "done")
+  \A id \in CallIds : ((srvSt \in {"closing", "closed"} \/ Cmd("close", "server", "") \in pend) /\ call[id].st = "sent") ~> (call[id].pc = "done")
 (* excess load waits and is then served: with handlers that return, a      *)
 (* request admitted to the receive loop of a live connection is answered   *)
 =============================================================================
